@@ -19,6 +19,7 @@ noncomputable instance instElemReal : Elem ℝ where
   abs := fun x => |x|
   atan := Real.arctan
   acos := Real.arccos
+  pi := Real.pi
 
 @[simp] theorem elem_sqrt (x : ℝ) : Elem.sqrt x = Real.sqrt x := rfl
 @[simp] theorem elem_sin (x : ℝ) : Elem.sin x = Real.sin x := rfl
@@ -29,6 +30,7 @@ noncomputable instance instElemReal : Elem ℝ where
 @[simp] theorem elem_rpow (x y : ℝ) : Elem.rpow x y = x ^ y := rfl
 @[simp] theorem elem_abs (x : ℝ) : Elem.abs x = |x| := rfl
 @[simp] theorem elem_atan (x : ℝ) : Elem.atan x = Real.arctan x := rfl
+@[simp] theorem elem_pi : (Elem.pi : ℝ) = Real.pi := rfl
 @[simp] theorem elem_acos (x : ℝ) : Elem.acos x = Real.arccos x := rfl
 
 end OAS
